@@ -37,3 +37,22 @@ package isaacblock
 //@   hof BatchWork#0 inner invariant ims != nil && nsaved == old(nsaved) + bstart && len(ims) == blast - bstart + 1
 //@   hof BatchWork#0 inner invariant forall(k, 0 <= k && k < len(ims) && bdone[bstart + k] ==> ims[k] != nil)
 //@   ensures [all-saved] r0 == nil ==> nsaved == old(nsaved) + (to - from + 1)
+
+// ---- C13: suffrage proofs bind the suffrage state to the signed block ------------
+
+//@ func (SuffrageProof).Prove
+//@   prop C13
+//@   requires s.m != nil && s.st != nil
+//@   requires s.m.Manifest().Height() != 0 ==> previousState != nil
+//@   requires snd(base.LoadSuffrageNodesStateValue(s.st)) == nil
+//@   requires previousState != nil ==> fst(base.LoadSuffrageNodesStateValue(previousState)).Height() < 4611686018427387904
+//@   ensures [root-bound] r0 == nil ==> len(s.proof.nodes) >= 1 && s.proof.nodes[len(s.proof.nodes)-1] != nil && s.proof.nodes[len(s.proof.nodes)-1].Hash().Equal(s.m.Manifest().StatesTree())
+//@   ensures [membership] r0 == nil ==> s.proof.Prove(s.st.Hash().String()) == nil
+//@   ensures [genesis] r0 == nil && s.m.Manifest().Height() == 0 ==> previousState == nil && s.st.Height() == 0
+//@   ensures [chain] r0 == nil && s.m.Manifest().Height() != 0 ==> previousState != nil && s.st.Previous().Equal(previousState.Hash()) && s.st.Height() > previousState.Height()
+//@   ensures [suffrage-height] r0 == nil && s.m.Manifest().Height() != 0 ==> fst(base.LoadSuffrageNodesStateValue(s.st)).Height() == fst(base.LoadSuffrageNodesStateValue(previousState)).Height() + 1
+
+//@ func (SuffrageProof).IsValid
+//@   prop C13
+//@   requires s.m != nil && s.st != nil
+//@   ensures [same-height] r0 == nil ==> s.st.Height() == s.m.Manifest().Height()
